@@ -197,4 +197,21 @@ def bincodeBfeDe (bs : List Nat) : Option Nat :=
 /-- serde_json deserialisation of an element from a plain decimal numeral without sign or leading zeros -/
 def jsonBfeDe (v : Nat) : Option Nat := if v ≤ U64MAX then some (v % P) else none
 
+/-! ### accessors / constructors (C20 audit): `new`, `values`, `reversed`, `Default`, `From<Digest> for Vec` -/
+
+/-- `Digest::reversed`: `Digest([d4, d3, d2, d1, d0])`; `none` = not five elements (cannot be expressed in Rust) -/
+def digestReversed : List Nat → Option (List Nat)
+  | [d0, d1, d2, d3, d4] => some [d4, d3, d2, d1, d0]
+  | _ => none
+
+/-- `Default` = `ALL_ZERO` = `[BFieldElement::ZERO; LEN]` -/
+def digestDefault : List Nat := List.replicate TF.Gen.DIGEST_LEN 0
+
+/-- `From<Digest> for Vec<BFieldElement>` (`val.0.to_vec()`), `Digest::values`, `Digest::new` are the identity on the
+    five elements -/
+def digestToVec (d : List Nat) : List Nat := d
+
+/-- `Digest::BYTES = LEN * BFieldElement::BYTES` -/
+def digestBytesConst : Nat := TF.Gen.DIGEST_LEN * TF.Gen.BFE_BYTES
+
 end TF.Conv
